@@ -91,8 +91,11 @@ func outputTupleDir(v rel.Value, dir string, fs afero.Fs, dryRun bool) error {
 		return err
 	}
 	if _, err := fs.Stat(dir); os.IsNotExist(err) {
-		if err := fs.Mkdir(dir, 0755); err != nil {
-			return err
+		// The dry run only validates; it must leave the filesystem untouched.
+		if !dryRun {
+			if err := fs.Mkdir(dir, 0755); err != nil {
+				return err
+			}
 		}
 	}
 
@@ -203,7 +206,13 @@ func applyIfExistsConfig(t rel.Tuple, dir string, fs afero.Fs, dryRun bool) (err
 		return errInvalidConfig
 	}
 	switch conf.String() {
-	case ifExistsIgnore, ifExistsRemove, ifExistsReplace, ifExistsFail:
+	case ifExistsIgnore, ifExistsRemove, ifExistsFail:
+	case ifExistsReplace:
+		// Checked whether or not the target exists, so that validity does not
+		// depend on the state of the filesystem.
+		if err := checkDirXorFileField(t); err != nil {
+			return err
+		}
 	case ifExistsMerge:
 		if t.HasName(fileField) {
 			return errors.Errorf("%s: '%s' config must not have '%s' field", ifExistsConfig, fileField, ifExistsMerge)
